@@ -24,6 +24,9 @@ pub struct Params {
     pub steps: usize,
     pub branches: u64,
     pub hostile_p: f64,
+    /// Probability that a manager's step is the pattern "remove a member, re-add it with a
+    /// different access"; with hostile steps enabled the re-added member then acts on its own.
+    pub readd_p: f64,
 }
 
 impl Params {
@@ -37,6 +40,7 @@ impl Params {
                 steps: rng.range(1, 2) as usize,
                 branches: 2,
                 hostile_p,
+                readd_p: 0.15,
             }
         } else {
             Params {
@@ -45,8 +49,10 @@ impl Params {
                 subgroups: rng.range(0, 3) as usize,
                 rounds: rng.range(2, 4) as usize,
                 steps: rng.range(1, 3) as usize,
-                branches: rng.range(2, 4),
+                // Every fourth hostile history is linear (one partition, everybody in sync).
+                branches: if hostile_p > 0.0 && rng.chance(0.25) { 1 } else { rng.range(2, 4) },
                 hostile_p,
+                readd_p: 0.15,
             }
         }
     }
@@ -88,6 +94,9 @@ pub struct History<C: Cx> {
     pub dropped_suggestions: BTreeMap<String, u64>,
     /// An accepted operation was refused by another replica during generation.
     pub disagreements: Vec<(char, u32, String)>,
+    /// Remove + re-add-with-other-access patterns published / forced actions of re-added members.
+    pub readd_patterns: u64,
+    pub readd_then_act: u64,
 }
 
 impl<C: Cx> History<C> {
@@ -135,6 +144,9 @@ struct Gen<'a, C: Cx> {
     rng: &'a mut Rng,
     h: History<C>,
     ids: Vec<u32>,
+    /// Members that were just removed and re-added with another access: at their next step they
+    /// author a membership operation in that group whatever their rights are.
+    primed: BTreeMap<char, char>,
 }
 
 impl<'a, C: Cx> Gen<'a, C> {
@@ -373,6 +385,74 @@ impl<'a, C: Cx> Gen<'a, C> {
             return;
         }
         let me = self.h.actors[pos].id;
+        // A member that was removed and re-added with another access acts now.
+        if let Some(group) = self.primed.remove(&me) {
+            let listed = root_members(&self.h.actors[pos].y, group);
+            let others: Vec<Entry> = listed.iter().cloned().filter(|e| e.1 != me).collect();
+            let outsiders: Vec<char> = self
+                .h
+                .individuals
+                .iter()
+                .cloned()
+                .filter(|i| *i != me && !listed.iter().any(|e| !e.0 && e.1 == *i))
+                .collect();
+            let action = if !outsiders.is_empty() && (others.is_empty() || self.rng.bool()) {
+                let a = random_access::<C>(self.rng, 3);
+                GroupAction::Add { member: GroupMember::Individual(*self.rng.pick(&outsiders)), access: a }
+            } else if !others.is_empty() {
+                let e = *self.rng.pick(&others);
+                GroupAction::Remove { member: if e.0 { GroupMember::Group(e.1) } else { GroupMember::Individual(e.1) } }
+            } else {
+                return;
+            };
+            let mut deps = sorted_heads(&self.h.actors[pos].y);
+            self.rng.shuffle(&mut deps);
+            let id = self.next_id();
+            self.h.readd_then_act += 1;
+            self.publish(pos, Op { id, author: me, deps, group, action }, partition, true, false);
+            return;
+        }
+        // Pattern: a manager removes a member and re-adds it with a different access.
+        if self.rng.chance(self.h.params.readd_p) && self.h.individuals[..self.h.params.actors].contains(&me) {
+            let managed: Vec<char> = self
+                .h
+                .groups
+                .iter()
+                .cloned()
+                .filter(|g| root_members(&self.h.actors[pos].y, *g).iter().any(|e| !e.0 && e.1 == me && e.2 == 3))
+                .collect();
+            if !managed.is_empty() {
+                let group = *self.rng.pick(&managed);
+                let victims: Vec<Entry> = root_members(&self.h.actors[pos].y, group)
+                    .into_iter()
+                    .filter(|e| !e.0 && e.1 != me)
+                    .collect();
+                if !victims.is_empty() {
+                    // Prefer managers: re-adding a former manager with less is the escalation case.
+                    let mgrs: Vec<Entry> = victims.iter().cloned().filter(|e| e.2 == 3).collect();
+                    let v = if !mgrs.is_empty() && self.rng.chance(0.7) { *self.rng.pick(&mgrs) } else { *self.rng.pick(&victims) };
+                    let m = GroupMember::Individual(v.1);
+                    let mut level = self.rng.below(4) as u8;
+                    if level == v.2 {
+                        level = (level + 1 + self.rng.below(3) as u8) % 4;
+                    }
+                    let deps = sorted_heads(&self.h.actors[pos].y);
+                    let id = self.next_id();
+                    if self.publish(pos, Op { id, author: me, deps, group, action: GroupAction::Remove { member: m } }, partition, false, false) {
+                        let deps = sorted_heads(&self.h.actors[pos].y);
+                        let id = self.next_id();
+                        let a = access(level, C::generate(self.rng));
+                        if self.publish(pos, Op { id, author: me, deps, group, action: GroupAction::Add { member: m, access: a } }, partition, false, false) {
+                            self.h.readd_patterns += 1;
+                            if self.h.params.hostile_p > 0.0 {
+                                self.primed.insert(v.1, group);
+                            }
+                        }
+                    }
+                    return;
+                }
+            }
+        }
         let hostile = self.h.params.hostile_p > 0.0 && self.rng.chance(self.h.params.hostile_p);
         let (group, action) = if hostile {
             self.suggest_hostile(pos)
@@ -472,8 +552,10 @@ pub fn generate<C: Cx>(rng: &mut Rng, params: Params) -> History<C> {
         events: vec![],
         dropped_suggestions: BTreeMap::new(),
         disagreements: vec![],
+        readd_patterns: 0,
+        readd_then_act: 0,
     };
-    let mut g = Gen { rng, h, ids };
+    let mut g = Gen { rng, h, ids, primed: BTreeMap::new() };
     let everyone: Vec<usize> = (0..n_ind).collect();
 
     // Root group: created by actor 0 with a random set of initial individuals.
